@@ -254,6 +254,9 @@ def run_iteration(cut, LJ, LJp, hs, u, index, **kw):
     out = io.StringIO()
     with _module_names(mm, torch=_loop_torch(u, index, seen_w, rand_calls)), contextlib.redirect_stdout(out):
         tagv, loc = cut.body(state)
+    missing = [k for k in ("accepted", "log_joint", "accept") if tagv == "next" and k not in loc]
+    if missing:
+        raise Undecided("the loop body no longer binds the local variable(s) %s the contract reads" % missing)
     return {"tag": tagv, "loc": loc, "world": w, "events": list(w.events), "mcmc": mcmc, "epoch0": epoch0, "accept0": 3,
             "weights": seen_w, "rand_calls": rand_calls, "index": index, "saves": saves, "n_ops": len(hs),
             "n_loggers": kw.get("n_loggers", 2), "LJ": LJ, "LJp": LJp, "hs": hs, "u": u, "printed": out.getvalue()}
@@ -379,6 +382,24 @@ class ExpTranslator(smt.Translator):
         if kind == "log":
             raise Undecided("C15: unexpected log atom %s in a tuning / accept term" % nf.atom_name(i))
         return super().atom(i)
+
+    def mono(self, m):
+        """as smt.Translator.mono, except that a FRACTIONAL power of an exp atom is exp(e * arg) (identity exp(a)^e = exp(e a)); the
+        generic translation would introduce an L-th root through a product of L factors"""
+        import z3
+        r = None
+        for i, e in m:
+            kind, _ = nf.ATOMS.atoms[i]
+            if kind == "exp" and not (isinstance(e, int) or e.denominator == 1):
+                mono, den = nf._FN_ARGS[i]
+                arg = nf.RF(nf.Poly({mono: Q(1)}), den if den is not None else nf.ONE_P) * abs(Q(e))
+                za = self.rf(arg)
+                self.exp_args.append(za)
+                t = self.EXP(za) if e > 0 else 1 / self.EXP(za)      # exp(a)^(-e) = 1 / exp(e a)
+            else:
+                t = smt.Translator.mono(self, ((i, e),))
+            r = t if r is None else r * t
+        return z3.RealVal(1) if r is None else r
 
     def exp_axioms(self, extra_args=()):
         """instances of: EXP > 0, EXP(0) = 1, strict monotonicity - on all argument terms that occur"""
@@ -814,10 +835,6 @@ def scn_hastings_1d(kind, n_params, dim, index, index2, sign):
     return scn
 
 
-class _DirichletTwin:
-    pass
-
-
 def scn_hastings_dirichlet(K, kind="dirichlet"):
     """DirichletOperator: x on the simplex, x' ~ Dirichlet(s x) (checked: the concentration of the distribution object whose
     sample() is used, and that the parameter is set to the draw); the true ratio is
@@ -1090,7 +1107,7 @@ GRID = {
     "ScalerOperator": [1e-6, 0.01, 0.1, 0.5, 0.75, 0.999],
     "SlidingWindowOperator": [1e-6, 0.1, 1.0, 37.5],
     "DirichletOperator": [1e-3, 0.5, 1.0, 50.0, 1e4],
-    "GMRFPiecewiseCoalescentBlockUpdatingOperator": [1.0, 1.0001, 1.5, 2.0, 10.0],
+    "GMRFPiecewiseCoalescentBlockUpdatingOperator": [1.0001, 1.0, 1.5, 2.0, 10.0],
     "HMCOperator": [1e-6, 0.0125, 0.1, 2.0],
     "AdaptiveStepSize": [1e-6, 0.0125, 0.1, 2.0],
 }
@@ -1684,15 +1701,39 @@ def whole_run(kinds, adapt, iters, seed, every=0):
             pass
     rows = []
     clog = ContainerLogger([total] + params, rows, 1)
+    from torchtree.core.logger import Logger
+    csvlog = Logger([total] + params, 1, delimiter="\t")        # file_name None: writes to (captured) stdout
     real_rand = torch.rand
 
     def rand(*a, **k):
         u = real_rand(*a, **k)
         ev.append(["rand", u.clone()])
         return u
-    mcmc = mm.MCMC("mcmc", joint, [w["op"] for w in worlds], iters, loggers=[Rec(), clog], checkpoint=None, every=every)
-    with _module_names(mm, torch=_NS(torch, rand=rand)), contextlib.redirect_stdout(io.StringIO()):
-        mcmc.run()
+    mcmc = mm.MCMC("mcmc", joint, [w["op"] for w in worlds], iters, loggers=[Rec(), clog, csvlog], checkpoint=None, every=every)
+    aborted = None
+    captured = io.StringIO()
+    with _module_names(mm, torch=_NS(torch, rand=rand)), contextlib.redirect_stdout(captured):
+        try:
+            mcmc.run()
+        except Exception as e:  # noqa: BLE001 - the real code raised inside a run: the completed iterations are still re-derived
+            aborted = "%s: %s" % (type(e).__name__, e)
+    done = sum(1 for e in ev if e[0] == "tune")
+    if aborted is not None and done >= iters:
+        # raised after the last iteration (the final report divides by _accept + _reject of an operator that was never
+        # selected): the loop itself is complete
+        aborted = None
+    if aborted is not None:
+        # keep the events of the completed iterations only
+        last = max(i for i, e in enumerate(ev) if e[0] == "tune") if done else 1
+        ev = ev[:last + 1]
+        while len(rows) > done + 1:
+            rows.pop()
+    iters_req, iters = iters, done if aborted is not None else iters
+    csv_rows = {}
+    for line in captured.getvalue().splitlines():
+        cells = line.split("\t")
+        if len(cells) == 2 + sum(p.shape[-1] for p in params) and cells[0].isdigit():
+            csv_rows[int(cells[0])] = [float(c) for c in cells[1:]]
     # ---- re-derive every iteration
     def fail(msg, it):
         raise Refuted("whole run (%s, adaptation %s, seed %d), iteration %d: %s" % ("+".join(kinds), "on" if adapt else "off", seed, it, msg),
@@ -1774,8 +1815,13 @@ def whole_run(kinds, adapt, iters, seed, every=0):
         flat = [v for p in cur for v in p.tolist()]
         if not _close(row[0], LJ) or row[1:] != flat:
             fail("real ContainerLogger row %r is not (target, parameters) of the post-decision state" % (row,), it)
+        crow = csv_rows.get(it)
+        if crow is None or not _close(crow[0], LJ) or crow[1:] != flat:
+            fail("row written by the real core.logger.Logger %r is not (target, parameters) of the post-decision state" % (crow,), it)
     if i != len(ev):
         fail("%d unexplained trailing events" % (len(ev) - i), iters)
+    if aborted is not None:
+        raise Undecided("the real run raised %s after %d of %d iterations (all completed iterations agree with the statement)" % (aborted[:200], iters, iters_req))
     if n_acc == 0 or n_rej == 0 or len(used) != len(kinds):
         raise Undecided("vacuous whole run: %d accepted, %d rejected, operators used %s" % (n_acc, n_rej, sorted(used)))
     return {"iterations": iters, "accepted": n_acc, "rejected": n_rej, "nonfinite": n_nonfinite}
@@ -1922,12 +1968,19 @@ def _raise_case(c, f, what):
 def ob_loop_classes():
     c = _cut()
     n = 0
+    failing = []
     for case in finite_cases():
         r = concrete_iteration(c, *case)
         f = r["fail"] + decision_failures(r, *case)
         n += 1
         if f:
-            _raise_case(case, f, "accept rule / protocol on the verbatim loop body")
+            failing.append((case, f))
+    if failing:
+        # prefer a witness that the whole real MCMC.run exhibits as well
+        for case, f in failing[:40]:
+            if not replay_accept({"case": _case_key(case)})[0]:
+                _raise_case(case, f, "accept rule / protocol on the verbatim loop body")
+        _raise_case(failing[0][0], failing[0][1], "accept rule / protocol on the verbatim loop body")
     out = _cut_info(c)
     out.update(backend="native execution of the verbatim body on a complete split of value classes", cases=n,
                statement="d=LJ'-LJ+h in {<0, =0, >0, underflow, overflow} x u in {0, tiny, just below / equal / just above exp(min(0,d)), ~1} x "
